@@ -440,4 +440,12 @@ FINDINGS = _build() + [
          what="[R-default-cut-at-dot] docstring hop of a string default containing a full stop ('a.b'): value cut at the dot or SyntaxError - as C01-string-default-cut-at-full-stop",
          site="cdd/shared/defaults_utils.py:extract_default", example="{'alpha': {'typ': 'str', 'default': 'a.b'}} -> docstring hop"),
 ]
-FIXED = []
+FIXED = [
+    'fixed: property=C03 fc46805 docstring hop of a string default containing a full stop: value cut at the dot or SyntaxError',
+    'fixed: property=C03 26237d2 docstring hop of a string default containing a double quote raised SyntaxError',
+    'fixed: property=C03 efa4dbd docstring hop lost an empty-string default',
+]
+
+# patterns of defects that have since been repaired in the repository (see FIXED): no longer known findings
+FIXED_IDS = ['C03-docstring-default-15', 'C03-docstring-hop-cuts-string-default-at-full-stop', 'C03-docstring-hop-double-quote-in-default']
+FINDINGS = [f for f in FINDINGS if f["id"] not in FIXED_IDS]
